@@ -34,10 +34,19 @@ static Chunk g_pool[4];
 static Chunk g_null_chunk;
 Chunk *const Chunk::NullChunkPtr = &g_null_chunk;
 static Chunk *any_chunk() { unsigned k = nondet_uint(); return (k < 4) ? &g_pool[k] : &g_null_chunk; }
-Chunk *Chunk::GetNext(const E_Scope) const { return any_chunk(); }
+#ifdef PLAIN_VC
+// every chunk has finitely many successors: forward navigation reaches the NullChunk sentinel after g_fwd_fuel steps
+// (the harness leaves g_fwd_fuel arbitrary up to 6; the successor returned is an arbitrary chunk, unrelated to `this`, so a
+// walk of any length reaches the same set of states as a walk of one or two steps)
+extern "C" { unsigned g_fwd_fuel; }
+static Chunk *fwd_chunk() { if (g_fwd_fuel == 0) { return &g_null_chunk; } g_fwd_fuel--; return any_chunk(); }
+#else
+#define fwd_chunk any_chunk
+#endif
+Chunk *Chunk::GetNext(const E_Scope) const { return fwd_chunk(); }
 Chunk *Chunk::GetPrev(const E_Scope) const { return any_chunk(); }
-Chunk *Chunk::GetNextNc(const E_Scope) const { return any_chunk(); }
-Chunk *Chunk::GetNextNcNnl(const E_Scope) const { return any_chunk(); }
+Chunk *Chunk::GetNextNc(const E_Scope) const { return fwd_chunk(); }
+Chunk *Chunk::GetNextNcNnl(const E_Scope) const { return fwd_chunk(); }
 Chunk *Chunk::GetPrevNcNnl(const E_Scope) const { return any_chunk(); }
 Chunk *Chunk::GetPrevType(const E_Token, int, E_Scope) const { return any_chunk(); }
 Chunk *Chunk::GetOpeningParen(E_Scope) const { return any_chunk(); }
